@@ -161,11 +161,12 @@ func ParseTXTRegs(data []byte) (TXTRegisterSpace, error) {
 	if err != nil {
 		return regSpace, fmt.Errorf("unable to seek: %w", err)
 	}
-	err = binary.Read(buf, binary.LittleEndian, &regSpace.TxtReset)
-
+	var ests uint8
+	err = binary.Read(buf, binary.LittleEndian, &ests)
 	if err != nil {
 		return regSpace, err
 	}
+	regSpace.TxtReset = ests&(1<<0) != 0 // TXT_RESET.STS
 
 	// TXT.BootSTATUS (0xa0)
 	_, err = buf.Seek(int64(txtBootStatus), io.SeekStart)
